@@ -9,6 +9,7 @@ import (
 	"errors"
 	"io"
 	"strconv"
+	"time"
 
 	"github.com/openebs/jiva/types"
 )
@@ -83,6 +84,16 @@ func New(addr string) *Replica {
 		Size: 1 << 20, SectorSize: 4096, CloneScript: []string{"NA"}}
 	Replicas[addr] = r
 	return r
+}
+
+// Sleep replaces time.Sleep in the controller: while the controller sleeps (between two
+// polls of a clone's status) every replica's clone status moves to its next value.
+func Sleep(d time.Duration) {
+	for _, m := range Replicas {
+		if m.ClonePos < len(m.CloneScript)-1 {
+			m.ClonePos++
+		}
+	}
 }
 
 // CheckReplicationFactor replaces util.CheckReplicationFactor (assumption A-env-RF).
@@ -322,12 +333,11 @@ func (m *Replica) InfoNoFail() types.ReplicaInfo {
 	ri.SectorSize = m.SectorSize
 	ri.ReplicaMode = m.Mode
 	ri.Rebuilding = m.Rebuilding
+	// the clone status moves on with time (Sleep below), not with the number of queries:
+	// Size, SectorSize and the status poll all read the same description
 	if m.ClonePos < len(m.CloneScript) {
 		ri.CloneStatus = m.CloneScript[m.ClonePos]
 		m.LastCloneStatus = ri.CloneStatus
-		if m.ClonePos < len(m.CloneScript)-1 {
-			m.ClonePos++
-		}
 	}
 	if len(m.Chain) > 0 {
 		ri.Head = m.Chain[0]
